@@ -118,13 +118,13 @@ class Device(BaseDevice):
         l, h, s, e = cbound
         constraints += [{
           'type': 'ineq',
-          'fun': lambda s: s.dot(np.ones(len(self))) - l,
-          'jac': lambda s: np.ones(len(self))
+          'fun': lambda x, l=l, s=s, e=e: x.reshape(len(self))[s:e].sum() - l,
+          'jac': lambda x, s=s, e=e: np.hstack((np.zeros(s), np.ones(e - s), np.zeros(len(self) - e)))
         },
         {
           'type': 'ineq',
-          'fun': lambda s: h - s.dot(np.ones(len(self))),
-          'jac': lambda s: -1*np.ones(len(self))
+          'fun': lambda x, h=h, s=s, e=e: h - x.reshape(len(self))[s:e].sum(),
+          'jac': lambda x, s=s, e=e: -1*np.hstack((np.zeros(s), np.ones(e - s), np.zeros(len(self) - e)))
         }]
     return constraints
 
